@@ -1,6 +1,7 @@
 """C08 - the advertised maximum compressed size is honoured."""
 import json, os
 import vlib
+from checks import multi_common as mc
 
 PROP = "C08"
 LEVEL = "proof"
@@ -402,8 +403,85 @@ def check(run):
            [k for k in range(len(cases)) if cases[k].startswith("U ")][:1] + [k for k in range(len(cases)) if cases[k].startswith("M ")][:1]
     run.cov["samples"] = [{"request": cases[k], "impl": impl[k][:160], "model_request": mreq[k][:160] if mreq[k] else None,
                            "model": mans.get(k)} for k in pick]
+    worker_streams(run, thorough)
     if not ok_proof and not run.violations:
         run.report("proof-obligation", {"stage": "proof"}, {"broken": broken}, broken="; ".join(b[:400] for b in broken), found_input=False)
+
+
+def worker_streams(run, thorough):
+    """the hypotheses of C08_multi / C08_part on the streams the real CompressMulti workers write (trace hook
+    verif_multi): every later part catable without magic header, every finished magic-free part within
+    n + 4 floor(n / 2^14) + 11 bytes, and the call itself fits a buffer of exactly the Multi bound"""
+    okh, logh, exe = vlib.harness_build("multi", "dev")
+    if not okh:
+        run.report("proof-obligation", {"stage": "harness build (multi)"}, {"log": logh[-2000:]},
+                   broken="harness multi does not build against /repo (hook verif_multi or public API changed?)", found_input=False)
+        return
+    rng = run.rng
+    cases = []
+    sizes = [0, 1, 5, 100, 16383, 16384, 40000, 70001, 131072 + 3] + ([300000, 1 << 20] if thorough else [])
+    for q in (2, 3, 4, 5, 7, 9) + ((10, 11) if thorough else ()):
+        for t in (1, 2, 3, 5, 8, 16):
+            for kind in ("rand", "text", "mix"):
+                for f in (0, 16, 4, 1, 5, 20):
+                    if rng.random() > (0.5 if thorough else 0.13):
+                        continue
+                    n = rng.choice(sizes) if rng.random() < 0.5 else rng.choice(sizes) * t + rng.randrange(0, 4)
+                    n = min(n, 400000 if not thorough else 1 << 21)
+                    w = rng.choice([10, 16, 18, 22, 24] + ([26, 30] if f & 16 else []))
+                    cases.append(mc.Case("thr", q, w, f, t, kind, n, rng.randrange(1, 1 << 30)))
+    for q in (10, 11):
+        for t in (2, 4):
+            cases.append(mc.Case("thr", q, 18, 0, t, "rand", 20000 * t + 1, rng.randrange(1, 1 << 30)))
+    answers = mc.run_impl(exe, cases, budget=mc.HangBudget())
+    stats = {"calls": 0, "jobs_checked_against_C08_part": 0, "jobs_with_magic_header_skipped": 0, "later_parts_shape_checked": 0,
+             "tightest_part_margin": None, "tightest_call_margin": None, "calls_not_run": 0}
+    nrep = 0
+    for c, a in zip(cases, answers):
+        if a.notrun or a.kind in ("TOOL", "NORETURN", "?"):
+            stats["calls_not_run"] += 1
+            continue
+        stats["calls"] += 1
+        cd = c.case()
+        if a.kind != "OK" or a.dec != "ok" or (a.bound is not None and a.n is not None and a.n > a.bound):
+            if nrep < 4:
+                nrep += 1
+                run.report("spec-violation", cd, {"impl": a.head[:400], "spec": "CompressMulti into a buffer of the advertised Multi maximum succeeds within it and decodes to the input"},
+                           what="multi-threaded compression into a buffer of BrotliEncoderMaxCompressedSizeMulti: %s dec=%s" % (a.result_str(), a.dec))
+            continue
+        mg = a.bound - a.n
+        if stats["tightest_call_margin"] is None or mg < stats["tightest_call_margin"]:
+            stats["tightest_call_margin"] = mg
+        tr = mc.parse_events(a.ev)
+        for i, j in sorted(tr["J"].items()):
+            d = tr["D"].get(i)
+            calls = tr["C"].get(i, [])
+            if d is None or not calls or not calls[-1]["fin"]:
+                continue
+            bad = None
+            if i > 0:
+                stats["later_parts_shape_checked"] += 1
+                if not (d["f"] & 1) or (d["f"] & 4):
+                    bad = "part %d is not (catable, no magic header): flags %d - hypothesis catable_part / s_magic = false of C08_multi" % (i, d["f"])
+            if d["f"] & 4:
+                stats["jobs_with_magic_header_skipped"] += 1
+            elif bad is None:
+                n = j["e"] - j["s"]
+                allow = n + 4 * (n >> 14) + 11
+                stats["jobs_checked_against_C08_part"] += 1
+                m = allow - calls[-1]["oo"]
+                if stats["tightest_part_margin"] is None or m < stats["tightest_part_margin"]:
+                    stats["tightest_part_margin"] = m
+                if m < 0:
+                    bad = "part %d (%d input bytes) took %d bytes, more than n + 4 floor(n/2^14) + 11 = %d: the conclusion of C08_part fails on a real worker stream (schedule_ok or the expansion guard does not describe it)" % (i, n, calls[-1]["oo"], allow)
+            if bad and nrep < 4:
+                nrep += 1
+                cd2 = dict(cd)
+                cd2["part"] = i
+                run.report("correspondence", cd2, {"impl": a.head[:300], "trace": ",".join(a.ev)[:1500]},
+                           broken="C08_multi / C08_part hypotheses vs threading.rs compress_part: " + bad, found_input=False)
+    run.cov["worker_streams"] = stats
+    run.note("worker streams: %s" % json.dumps(stats))
 
 
 def replay(path):
